@@ -120,7 +120,7 @@ B64 = "ABCDEFGHIJKLMNOPQRSTUVWXYZabcdefghijklmnopqrstuvwxyz0123456789+/"
 def gen_b64(rng, nbytes=None):
     import base64
     if nbytes is None:
-        nbytes = rng.choice([0, 1, 2, 3, 4, 7, 16, 33])
+        nbytes = rng.choice([0, 1, 2, 3, 4, 7, 16, 33, 60, 150, 400])
     data = bytes(rng.randrange(256) for _ in range(nbytes))
     return base64.b64encode(data).decode("ascii"), nbytes
 
